@@ -10,9 +10,9 @@ Definition vz (v : tval) : Z :=
   let n := vn v in if N.even n then Z.of_N (N.div2 n) else Z.opp (Z.of_N (N.div2 (n + 1))).
 Definition enc_z (z : Z) : N := if Z.ltb z 0 then Z.to_N (Z.opp z * 2 - 1) else Z.to_N (z * 2).
 
-(* case = [ [dfix; atomic_incr; now; cfix; index_first; error_stops_lookup] ; threads ; sched ; reg ; cloud ; obs ]
+(* case = [ [dfix; atomic_incr; now; cfix; index_first; error_stops_lookup; update_checks_client] ; threads ; sched ; reg ; cloud ; obs ]
    thread = [ client ; ops ; faults ; results ]
-   op = [0; sub; base; tgt] | [1; is_mine; k_or_id] | [2; k; st; exp; tgt] | [3; host; now] | [4] | [5; now] (cleanup)
+   op = [0; sub; base; tgt] | [1; is_mine; k_or_id] | [2; k; st; exp; tgt] | [3; host; now] | [4] | [5; now] (cleanup) | [6; id; client?; name?; st; exp; tgt] (forged update)
    result = [kind; a; b; c; d]   0 created id | 1 deleted | 2 updated | 3 routed from_repo id client tgt | 4 reset | 5 error code
    legacy entry = [name; id; client; tgt; active; revoked; exp]
    obs = [ idx [[name; id]..] ; recs [[id; name; client; tgt; st; exp]..] ; lists [[client; [ids]]..] ; guards [ids] ; next ; finals [[name; result]..] ;
@@ -29,6 +29,9 @@ Definition dec_op (v : tval) : op :=
   | 2 => OUpdate (vnat (vnth 1 v)) (dec_status (vnth 2 v)) (vz (vnth 3 v)) (vn (vnth 4 v))
   | 3 => OLookup (vb (vnth 1 v)) (vn (vnth 2 v))
   | 5 => OCleanup (vn (vnth 1 v))
+  | 6 => OUpdateF (vn (vnth 1 v)) (match vopt (vnth 2 v) with Some x => Some (vz x) | None => None end)
+                  (match vopt (vnth 3 v) with Some x => Some (vb x) | None => None end)
+                  (dec_status (vnth 4 v)) (vz (vnth 5 v)) (vn (vnth 6 v))
   | _ => OResetCounter
   end.
 Definition dec_thread (v : tval) : thr :=
@@ -66,7 +69,7 @@ Definition enc_res (r : res) : tval :=
 
 Definition model_run (v : tval) : shared * list thr :=
   let fl := vnth 0 v in
-  drun (vbool (vnth 0 fl)) (vbool (vnth 1 fl)) (vbool (vnth 3 fl)) (vbool (vnth 4 fl)) (vbool (vnth 5 fl))
+  drun (vbool (vnth 0 fl)) (vbool (vnth 1 fl)) (vbool (vnth 3 fl)) (vbool (vnth 4 fl)) (vbool (vnth 5 fl)) (vbool (vnth 6 fl))
        (tbl (map dec_legacy (vl (vnth 3 v)))) (tbl (map dec_legacy (vl (vnth 4 v))))
        empty_store (map dec_thread (vl (vnth 1 v))) (map vnat (vl (vnth 2 v))).
 
